@@ -225,9 +225,18 @@ Model == /\ IsKind("model")
 \* ... and what the event model (InotifyEvents, via MC_EventsGen) says the user receives for this history: its own small
 \* kernel and its transcription of handleEvent/newEvent.  A difference is MODEL-DRIFT (the verdict on the properties
 \* comes, as always, from the shadow instance and Ideal).
+\* The model reads a whole operation's records at once; the real reader may wake up between two records of one system call,
+\* and what it has not read yet can still merge with an identical record that follows (kernel tail merge): the observed
+\* sequence may lack an event that is identical to its predecessor in the model's sequence.
+RECURSIVE SameUpToMergeFrom(_, _, _, _)
+SameUpToMergeFrom(want, got, i, j) ==
+  IF i > Len(want) THEN j > Len(got)
+  ELSE \/ (j <= Len(got) /\ want[i] = got[j] /\ SameUpToMergeFrom(want, got, i + 1, j + 1))
+       \/ (i > 1 /\ want[i] = want[i - 1] /\ SameUpToMergeFrom(want, got, i + 1, j))
+SameUpToMerge(want, got) == SameUpToMergeFrom(want, got, 1, 1)
 Evmodel == /\ IsKind("evmodel")
            /\ g' = LET want == [i \in 1..Len(Line.want) |-> [name |-> Line.want[i].name, op |-> Line.want[i].op, from |-> Line.want[i].from]] IN
-                   IF want = g.got THEN g ELSE [g EXCEPT !.drift = Append(@, [model |-> want, observed |-> g.got])]
+                   IF SameUpToMerge(want, g.got) THEN g ELSE [g EXCEPT !.drift = Append(@, [model |-> want, observed |-> g.got])]
            /\ UNCHANGED <<W, seq>> /\ Next1
 
 \* ---- the worker process died inside this scenario ---------------------------
